@@ -394,12 +394,22 @@ func runWaitGroupRules(p *Program, id string) ([]*Gen, []string) {
 		}
 		name := head[0]
 		inPkg := map[string]bool{}
+		onlyWG := ""
+		onlyFn := ""
 		for _, part := range strings.Split(d.Text[j+1:], ";") {
 			part = strings.TrimSpace(part)
 			if strings.HasPrefix(part, "in=") {
 				for _, x := range splitList(part[3:], ",") {
 					inPkg[x] = true
 				}
+			}
+			if strings.HasPrefix(part, "func=") {
+				// only go statements inside this function (and its closures)
+				onlyFn = strings.TrimSpace(part[5:])
+			}
+			if strings.HasPrefix(part, "only=") {
+				// only wait groups with this access path (the others follow another discipline, e.g. Add at creation)
+				onlyWG = strings.TrimSpace(part[5:])
 			}
 		}
 		g := NewGen(p, nil, nil)
@@ -476,7 +486,13 @@ func runWaitGroupRules(p *Program, id string) ([]*Gen, []string) {
 						wgs = append(wgs, w)
 					}
 					sort.Strings(wgs)
+					if _, rootName := ContractName(root); onlyFn != "" && rootName != onlyFn {
+						continue
+					}
 					for _, w := range wgs {
+						if onlyWG != "" && !pathMatches(w, onlyWG) {
+							continue
+						}
 						count[key]++
 						pos := strings.TrimPrefix(p.Fset.Position(gi.Pos()).String(), p.Repo+"/")
 						o := &Oblig{Name: fmt.Sprintf("%s#waitgroup:%s.%d", key, name, count[key]), Kind: "waitgroup", Goal: "true", Pre: "unsat", AutoSite: true, Pos: pos,
